@@ -97,6 +97,9 @@ def run_tlc(module, cfg=None, env=None, workers=None, timeout=1500, simulate=Non
             if m:
                 res.generated = int(m.group(1).replace(",", ""))
                 res.distinct = int(m.group(2).replace(",", ""))
+            m = re.match(r"^The number of states generated: (\d+)", line)
+            if m:
+                res.generated = int(m.group(1)); res.distinct = int(m.group(1))
             m = re.match(r"^The depth of the complete state graph search is (\d+)", line)
             if m:
                 res.depth = int(m.group(1))
@@ -455,7 +458,7 @@ def refstore_stage(ev, prop, tier, seed, timeout=3000):
     return mism, cases
 
 
-def run_worker(cases_path, events_path, per_case_timeout=20.0):
+def run_worker(cases_path, events_path, per_case_timeout=20.0, max_crashes=1000):
     """Runs harness `worker` over the cases in child processes; a child that dies or hangs is data:
     a {"ev":"crash"} event is synthesised for the call that never returned and the rest of the cases
     continue in a fresh child.  The first call event of each case is enriched with the recogniser's
@@ -524,6 +527,9 @@ def run_worker(cases_path, events_path, per_case_timeout=20.0):
                          "stderr": (p.stderr.read() or "")[-300:] if not timed_out else ""}
                 out.write(json.dumps(crash) + "\n"); n_events += 1
                 crashes.append(crash)
+                if len(crashes) >= max_crashes:
+                    log(f"[worker] {len(crashes)} crashes/timeouts: stopping early, the remaining cases are not explored")
+                    break
                 idx = next(i for i, c in enumerate(cases) if json.dumps(c["id"]) == json.dumps(open_call["id"]))
                 pos = idx + 1
             else:
@@ -581,6 +587,24 @@ def session_stage(ev, prop, tier, seed, timeout=3000):
                 qs = ["".join(map(chr, q)) for q in c["queries"]]
                 ev.samples.append({"history": [(f"t{e['t']} write doc{e['op']['d']} {''.join(map(chr, e['wpath']))}" if e["ev"] == "write"
                                                 else f"t{e['t']} {e['ev']} {e['op']['e']}({qs[e['op']['q'] - 1]}) doc{e['op']['d']}") for e in c["hist"]]})
+    return mism, cases
+
+
+def long_session_stage(ev, prop, tier, seed, timeout=1500):
+    """LongSession: TLC -simulate generates long single-thread histories (thousands of operations with writes in
+    between); each is replayed sequentially in one process against long-lived parsed queries and documents."""
+    cases = os.path.join(WORK, f"{prop}-longsession-{os.getpid()}.cases")
+    depth = 8100 if tier == "thorough" else 4100
+    r = run_tlc("LongSession", env={"VERIF_TIER": tier, "VERIF_SEED": str(seed)}, cases_path=cases, timeout=timeout, workers=4,
+                simulate=f"num={3 if tier == 'thorough' else 1}", extra=["-depth", str(depth), "-seed", str(seed + 1)])
+    if r.nreplay == 0:
+        raise ToolError("LongSession produced no histories (vacuous)")
+    ev.add_tlc("LongSession (simulation)", r, f"{r.nreplay} random histories of {depth - 100} operations each (tlc -simulate)")
+    mism, summary = run_replay("replay", ["--checks", "session"], cases, tier=tier)
+    ev.traces += summary["cases"]
+    ev.evaluations += summary["cases"]
+    ev.distinct_nontrivial += summary["distinct"]
+    ev.extra["long_session"] = {"histories": summary["cases"], "operations_each": depth - 100}
     return mism, cases
 
 
